@@ -20,9 +20,9 @@ def materialise(scr):
 
 
 GENS = [
-    G("c02a", ["Enroll", "Remove", "Reinit", "ConnectRand", "ConnectHonest", "ConnectNear", "ConnectNear", "ConnectOther"], 10,
+    G("c02a", ["Enroll", "Remove", "Reinit", "ConnectRand", "ConnectHonest", "ConnectNear", "ConnectMixed", "ConnectOther"], 10,
       dict(quick=40, thorough=800), ["C02"], nidl=True),
-    G("c02b", ["Enroll", "Remove", "ConnectHonest", "ConnectNear", "ConnectOther", "Dial"], 10,
+    G("c02b", ["Enroll", "Remove", "ConnectHonest", "ConnectNear", "ConnectMixed", "ConnectOther", "Dial"], 10,
       dict(quick=25, thorough=500), ["C02"], nidl=False, sw=True),
     G("c02c", ["Enroll", "Remove", "ConnectNear", "ConnectOther"], 8,
       dict(quick=10, thorough=200), ["C02"], nidl=False, base=False),
@@ -46,7 +46,7 @@ def family_for(prop):
     return dict(
         driver="hsd", trace_module="HandshakeTrace.tla", trace_consts=CONSTS, level="model_checking",
         fixed="fixed/hs.ndjson", nontrivial=nontrivial, materialise=materialise,
-        mc=dict(quick=[("MC_Handshake.tla", "MC_Handshake.cfg"), ("MC_Handshake.tla", "MC_Handshake_nonid.cfg")],
+        mc=dict(quick=[("MC_Handshake.tla", "MC_Handshake_q.cfg"), ("MC_Handshake.tla", "MC_Handshake_nonid_q.cfg")],
                 thorough=[("MC_Handshake.tla", "MC_Handshake.cfg"), ("MC_Handshake.tla", "MC_Handshake_nonid.cfg")]),
         witness=dict(quick=[("MC_Handshake.tla", "MC_Handshake_w.cfg", "NeverAuth")], thorough=[("MC_Handshake.tla", "MC_Handshake_w.cfg", "NeverAuth")]),
         gen=GENS,
